@@ -77,6 +77,13 @@ Next == \/ \E n \in Node : Process(n)
 
 Spec == Init /\ [][Next]_vars
 
+\* A post-partition start: message loss left node 1 one term ahead of the others (it was a candidate once). With two nodes
+\* and the code before the repair of D24 (CandidateYields = FALSE) no leader is ever elected from here.
+InitOffset == /\ node = [n \in Node |-> IF n = 1 THEN [InitNode(n) EXCEPT !.term = 1] ELSE InitNode(n)]
+              /\ msgs = {} /\ now = 0 /\ appended = <<>>
+SpecOffset == InitOffset /\ [][Next]_vars
+NoYield == FALSE
+
 -----------------------------------------------------------------------------
 Leaders == {n \in Node : node[n].st = "Leader"}
 Converged ==
